@@ -389,7 +389,7 @@ fn explore_both(
     for f in &fams {
         let budget = Budget {
             max_depth: ((f.max_fields + 1) * f.max_members) as u32,
-            wall: Duration::from_secs(if thorough { 1200 } else { 45 }),
+            wall: Duration::from_secs(if thorough { 1200 } else { 150 }),
             max_states: 60_000_000,
         };
         report.add(explore(f, &budget, seed, |s, ctx| {
@@ -412,7 +412,7 @@ fn explore_both(
     };
     let budget = Budget {
         max_depth: if thorough { 4 } else { 3 },
-        wall: Duration::from_secs(if thorough { 1200 } else { 45 }),
+        wall: Duration::from_secs(if thorough { 1200 } else { 150 }),
         max_states: 60_000_000,
     };
     report.add(explore(&d, &budget, seed, |s, ctx| {
@@ -441,7 +441,7 @@ fn explore_both(
     report.add(sweep(
         "D-chain(polkadot full + single-id closures)",
         &chain,
-        Duration::from_secs(if thorough { 600 } else { 40 }),
+        Duration::from_secs(if thorough { 600 } else { 150 }),
         |c| json!({"case": c.note}),
         |c, ctx| check(c, "chain", ctx),
     ));
